@@ -315,6 +315,14 @@ class Engine:
         ts = t['s']
         if 'fn' in o:
             return ('fn', FnInfo(o['fn']))
+        if ('int' in o or 'bits' in o) and t.get('k') == 'adt':
+            # a scalar constant of a single-field struct type (`const V: LayoutVersion = LayoutVersion(1)`)
+            adt = crate.adts.get(ts)
+            if adt and adt.get('kind') == 'struct' and len(adt['variants']) == 1:
+                fs = [f for f in adt['variants'][0]['fields'] if int(f.get('size', 1)) > 0]
+                if len(fs) == 1 and len(adt['variants'][0]['fields']) == 1:
+                    inner = dict(o, ty=fs[0]['ty'])
+                    return ('agg', ts, adt['variants'][0]['name'], (self.const(fr, inner),))
         if 'int' in o:
             return C(int(o['int']), ts)
         if 'float' in o:
@@ -813,6 +821,8 @@ class Engine:
                 return self.finish_call(st, fr, bb, dest, target, C(0, 'bool'), work, results, site)
             if prim in ('f64', 'f32'):
                 return self.finish_call(st, fr, bb, dest, target, C(0.0, prim), work, results, site)
+            if prim.startswith('std::option::Option<'):
+                return self.finish_call(st, fr, bb, dest, target, ('agg', 'std::option::Option', 'None', ()), work, results, site)
         if summ is not None:
             res = summ(self, st, fr, args, fn, site)
             if res is not None:
